@@ -1001,7 +1001,7 @@ impl TypeChecker {
                 no_ret(f_ty)
             }
 
-            E::Blob { blob, fields, span, .. } => {
+            E::Blob { blob, fields, self_var, span } => {
                 let blob_ty = self.copy(self.variables[*blob].ty);
                 let (blob_name, blob_fields, blob_args) = match self.find_type(blob_ty) {
                     Type::Blob(name, _, fields, args) => (name, fields, args),
@@ -1070,6 +1070,10 @@ impl TypeChecker {
                     fields_and_types.clone(),
                     blob_args.clone(),
                 ));
+
+                // `self` in the field initialisers is the blob being made.
+                let self_ty = self.variables[*self_var].ty;
+                self.unify(*span, ctx, self_ty, blob_ty)?;
 
                 // Unify the fields with their real types
                 // Only what the parts return - a literal returns nothing by itself.
